@@ -23,7 +23,7 @@ ASSUMPTIONS = [
     "weights are ints or dyadic rationals (float sums exact): distances are compared with ==; grid costs within 1e-9 relative",
     "dijkstra/astar/dijkstra_edges only see non-negative weights; astar only sees heuristics that are admissible and consistent by construction, weight=1",
     "astar_grid: terrain costs >= 1, start cell not blocked, manhattan heuristic only with 4 directions",
-    "max_cost: a goal within the budget must be found at its exact distance; beyond it INFEASIBLE or any valid faithfully priced path is accepted",
+    "max_cost: a goal within the budget must be found at its exact distance; beyond it INFEASIBLE is expected, and a path that is returned as OPTIMAL all the same must have the true shortest distance",
     "max_iter: MAX_ITER is accepted only when the limit is <= the number of nodes reachable from the source; a definitive answer under a limit must still be correct",
     "bfs/dfs with goal=None: the documented reachable set is compared (shared-input agreement)",
 ]
@@ -579,7 +579,12 @@ class _Judge:
         obs.event("sp.distance")
         got = _G.exact(res.objective)
         if beyond_ok:
-            return  # valid, faithfully priced path beyond the budget: accepted
+            # a goal beyond the budget: INFEASIBLE is the expected answer; a path that is returned all the same and
+            # labelled as the shortest has to *be* a shortest one ("report exactly the shortest-path distance")
+            if got != dist and st == "OPTIMAL":
+                obs.violate("sp.wrong-distance", f"{who}: reported {res.objective!r} with path {path!r} beyond the budget, "
+                                                 f"shortest distance is {_fmt(dist)}")
+            return
         self.note(key, who, got)  # what this solver says, right or wrong: compared pairwise in agree()
         if got != dist:
             obs.violate("sp.wrong-distance", f"{who}: reported {res.objective!r} with path {path!r}, shortest distance is {_fmt(dist)}")
